@@ -233,6 +233,9 @@ class Matrix(object):
                             str(self.columns), str(columns)))
                 columns = slice(columns, columns + 1, 1)
 
+            if rows.step not in (None, 1) or columns.step not in (None, 1):
+                raise PyrtlError('Slices with a step other than 1 are not supported')
+
             if rows.start is None:
                 rows = slice(0, rows.stop, rows.step)
             elif rows.start < 0:
